@@ -4,7 +4,7 @@ from __future__ import annotations
 
 import ast
 
-from ..astutil import attr_writes, is_none
+from ..astutil import attr_writes, is_none, call_arg
 from ..cfg import Node, cfg_of, may_forward, node_calls, walk_own
 from ..closed import find_roles, resolver
 from ..effects import effects
@@ -191,8 +191,8 @@ def run(ctx: Ctx) -> None:
             if len(asg) == 1 and asg[0].value is not None:
                 val = asg[0].value
         hook_ok = False
-        if isinstance(val, ast.Call) and len(val.args) >= 2:
-            cv = res._callable_value(start, val.args[1])
+        if isinstance(val, ast.Call) and call_arg(val, 1, "on_stop") is not None:
+            cv = res._callable_value(start, call_arg(val, 1, "on_stop"))
             hook_ok = cv is not None and any(f.name == "_on_stop" for f in cv.funcs)
         ctx.ob("C19.R3", start, "the connection's stop callback is the client's clearing hook", hook_ok, "the client would keep a stopped connection installed")
         # the connect phases run through the clearing wrapper
